@@ -64,7 +64,7 @@ fn part_copy(raw: &RawKey, rep: &mut Report, args: &Args) {
         }
         Ok((env, model))
     };
-    let dests: Vec<(&str, Box<dyn Fn() -> Result<Env, (String, String)>>)> = vec![
+    let dests: Vec<(&str, Box<dyn Fn() -> Result<Env, (String, String)> + '_>)> = vec![
         ("empty", Box::new(|| {
             let d = Env::single();
             let mut c = tiny_config(2);
@@ -79,6 +79,31 @@ fn part_copy(raw: &RawKey, rep: &mut Report, args: &Args) {
             _ = es("init", d.init_with(c))?;
             let repo = es("open", d.open_ids())?;
             _ = es("backup", backup_with(&repo, &MemSource::new("r", crate::c02::source(1)), "pre", T0 + 500, &force()))?;
+            Ok(d)
+        })),
+        // the destination already received these snapshots once, then lost all its data packs (index
+        // repaired): every root tree is there, what hangs below is not - copying again must heal it
+        ("copied-before-then-lost-data-packs", Box::new(|| {
+            let (src, _) = mk_src(false)?;
+            let d = Env::single();
+            let mut c = tiny_config(2);
+            c.id = serde_json::from_value(json!("5".repeat(64))).unwrap();
+            _ = es("init", d.init_with(c))?;
+            {
+                let srcf = es("open", src.open_full())?;
+                let snaps = es("snapshots", srcf.get_all_snapshots())?;
+                let dd = es("open", d.open_ids())?;
+                es("copy", srcf.copy(&dd, snaps.iter()))?;
+            }
+            let mut st = d.store();
+            for (id, _) in d.store().list(FileType::Pack) {
+                let data = st.get(FileType::Pack, &id).unwrap().clone();
+                if vkit::decode::pack_header(&d.raw, &data).is_ok_and(|h| h.iter().all(|b| b.tpe == 0)) {
+                    _ = st.del(FileType::Pack, &id);
+                }
+            }
+            d.set_store(st);
+            es("repair-index", es("open", d.open())?.repair_index(&rustic_core::RepairIndexOptions::default(), false))?;
             Ok(d)
         })),
         ("other-key-v1-one-blob-packs", Box::new(|| {
@@ -104,6 +129,10 @@ fn part_copy(raw: &RawKey, rep: &mut Report, args: &Args) {
     let mut idx = 0usize;
     for collide in [false, true] {
         for (dname, mk) in &dests {
+            // (the damaged destination holds the plain sources' snapshots: only they heal it)
+            if collide && *dname == "copied-before-then-lost-data-packs" {
+                continue;
+            }
             // every non-empty subset of the three snapshots
             for mask in 1u32..8 {
                 idx += 1;
@@ -123,15 +152,33 @@ fn part_copy(raw: &RawKey, rep: &mut Report, args: &Args) {
                     let d = es("open", dst.open_ids())?;
                     es("copy", srcf.copy(&d, snaps.iter()))?;
                     rep.inc("transitions");
-                    let got = read_all(&dst).map_err(|e| ("C12/copy/read".to_string(), e))?;
+                    // in the damaged destination the snapshots which are not copied again stay damaged:
+                    // only the copied ones are judged, and check only when all were copied
+                    let partial_heal = *dname == "copied-before-then-lost-data-packs" && !collide && mask != 7;
+                    let got: BTreeMap<String, Result<LTree, String>> = crate::c03::read_state_env(&dst)
+                        .map_err(|e| ("C12/copy/read".to_string(), e))?
+                        .into_iter()
+                        .map(|(_, l, r)| (l, r))
+                        .collect();
                     for s in &snaps {
-                        if let Some(df) = got.get(&s.label).map_or(Some("missing".to_string()), |g| diff(&model[&s.label], g)) {
-                            return Err(("C12/copy/content".into(), format!("snapshot {}: {df}", s.label)));
+                        match got.get(&s.label) {
+                            None => return Err(("C12/copy/content".into(), format!("snapshot {}: missing", s.label))),
+                            Some(Err(e)) => return Err(("C12/copy/read".into(), format!("snapshot {}: {e}", s.label))),
+                            Some(Ok(g)) => {
+                                if let Some(df) = diff(&model[&s.label], g) {
+                                    return Err(("C12/copy/content".into(), format!("snapshot {}: {df}", s.label)));
+                                }
+                            }
                         }
                     }
-                    let errs = check_errors(&dst, true).map_err(|e| ("C12/copy/check".to_string(), e))?;
-                    if !errs.is_empty() {
-                        return Err(("C12/copy/check".into(), errs.join(" | ")));
+                    if !partial_heal {
+                        if let Some((l, Err(e))) = got.iter().find(|(_, r)| r.is_err()) {
+                            return Err(("C12/copy/read".into(), format!("snapshot {l}: {}", e.clone())));
+                        }
+                        let errs = check_errors(&dst, true).map_err(|e| ("C12/copy/check".to_string(), e))?;
+                        if !errs.is_empty() {
+                            return Err(("C12/copy/check".into(), errs.join(" | ")));
+                        }
                     }
                     // blobs already present are not written again
                     let mut seen = BTreeSet::new();
@@ -654,7 +701,7 @@ fn part_repair(raw: &RawKey, rep: &mut Report, args: &Args) {
 pub fn run(args: &Args, rep: &mut Report) {
     let raw = RawKey::from_master(&master_key());
     std::panic::set_hook(Box::new(|_| {}));
-    rep.set_meta("bounds", json!("copy: 2 source repositories (one with tree/data id collisions) x 4 destinations (empty, holding some blobs, other key + repo v1 + one-blob packs, other key + compression 19 + default chunker) x every non-empty subset of 3 snapshots; merge: all pairs (and triples over a subset) of trees with entries a,b of kind {absent, file v1, file v2, symlink, dir with sub-entries} x 3 orderings; rewrite: 4 trees (one with twin directories sharing their tree blobs) x every glob set of size <= 2 over 6 exclude globs (two anchored at one twin) x forget; repair: undamaged + every single pack removed + every single blob entry dropped from the index, x delete"));
+    rep.set_meta("bounds", json!("copy: 2 source repositories (one with tree/data id collisions) x 5 destinations (empty, holding some blobs, holding the same snapshots after the loss of all data packs, other key + repo v1 + one-blob packs, other key + compression 19 + default chunker) x every non-empty subset of 3 snapshots; merge: all pairs (and triples over a subset) of trees with entries a,b of kind {absent, file v1, file v2, symlink, dir with sub-entries} x 3 orderings; rewrite: 4 trees (one with twin directories sharing their tree blobs) x every glob set of size <= 2 over 6 exclude globs (two anchored at one twin) x forget; repair: undamaged + every single pack removed + every single blob entry dropped from the index, x delete"));
     if args.replay.is_some() {
         rep.note("replay re-runs the complete check (all parts are small)");
     }
